@@ -340,7 +340,7 @@ class LoadTracer(PagingTracer):
                                     else:
                                         # DEC r
                                         loops = min((state[0] - registers[25]) // acc.loop_time + 1, counter - 1)
-                                    if loops:
+                                    if loops > 0:
                                         if acc.inc:
                                             # INC r
                                             registers[acc.counter], registers[1] = INC0[counter + loops - 1]
